@@ -156,6 +156,10 @@ META['C08'] = _ledger('C08', 'C08 focus: at every height, for every output/contr
   'Proved on the model: whatever is accepted satisfies the height rule (v1 below the require height, v2 from the allow height, inputs mature, contract and revision proof heights not in the past, policy above/after compare >= parent height / strictly after median). That the bound itself is accepted (not late) is pinned by the boundary probes at bound-1/bound/bound+1 recomputed by the model.', [])
 META['C09'] = _ledger('C09', 'C09 focus: block, supplement and state are encoded before and after every ValidateBlock/ApplyBlock call and must be byte-identical; ApplyBlock twice must give identical state and diffs; ApplyHeader must agree with ApplyBlock on the PoW state.',
   'Proved on the model: block validation is the fold of per-transaction validate-then-apply; a spend records the presented element unchanged. Determinism is definitional in the model. The implementation\'s ownership discipline (in-place proof updates only on copies) is tied by comparing inputs before/after every call on generated chains. Partial: goroutine schedules / race detector runs are not part of this check yet.', ['concurrency is not exercised by this check'])
+META['C09']['race'] = True
+META['C09']['rule'] += ' The harness binary for this check is built with -race: 2-8 goroutines call ValidateBlock/ApplyBlock/RevertBlock on shared inputs for every third block and must agree with the sequential result; a reported data race aborts the run. Copy-disjointness: for 300 (5000) random values, everything reachable from V2Transaction.DeepCopy() / element Copy() results is overwritten and the original must re-encode identically.'
+META['C09']['level_text'] = META['C09']['level_text'].replace('Partial: goroutine schedules / race detector runs are not part of this check yet.', 'Partial: goroutine schedules are those the Go runtime produces under the race detector, not enumerated.')
+META['C09']['assumptions'] = [a for a in META['C09']['assumptions'] if 'concurrency is not exercised' not in a] + ['the Go memory model and scheduler are exercised (race detector), not modelled']
 c10 = META['C10']
 c10['rule'] += ' | validation half: ' + LEDGER_RULE + 'C10 focus: covered fields indexing nonexistent fields (incl. 2^63), fees/outputs summing past 2^128, maximal v2 fee; every ValidateBlock/ApplyBlock/RevertBlock runs under recover: a panic is a violation.'
 c10['trusted_base'] = c10['trusted_base'] + LEDGER_TB
